@@ -9,8 +9,8 @@ package main
 //       assigned anywhere in the same function is replaced by that expression
 //       (isOptional := sField.settings.isOptional; if isOptional ... == if sField.settings.isOptional ...);
 //   M2  a call of an UNEXPORTED function or method of the analysed packages whose body is a single
-//       `return <pure expression>` is replaced by that expression with receiver and parameters
-//       substituted (d.bytesLeft() == len(d.src[d.offset:])).
+//       `return <expression>` (pure receiver and arguments at the call) is replaced by that expression
+//       with receiver and parameters substituted (d.bytesLeft() == len(d.src[d.offset:])).
 //
 // Both substitutions are only applied when they cannot change the value (single assignment, no
 // writes to any operand in the function); otherwise the spelling is left alone.
@@ -122,7 +122,17 @@ func buildKeySubst(p *Prog) {
 					return true
 				}
 				calleeInfo := infoOfDecl(p, fd)
-				if calleeInfo == nil || !pureExpr(calleeInfo, rs.Results[0]) {
+				// the returned expression need not be pure: replacing the call by it at the call site is
+				// exact inlining (it is evaluated once, at the same point) as long as the receiver and the
+				// arguments are pure, which is required below; function literals are not carried over
+				hasLit := false
+				ast.Inspect(rs.Results[0], func(m ast.Node) bool {
+					if _, isLit := m.(*ast.FuncLit); isLit {
+						hasLit = true
+					}
+					return !hasLit
+				})
+				if calleeInfo == nil || hasLit {
 					return true
 				}
 				// receiver and parameter substitution (arguments must be pure as well)
@@ -152,9 +162,27 @@ func buildKeySubst(p *Prog) {
 				k := exprKeyEnv(rs.Results[0], calleeInfo, env)
 				if !strings.Contains(k, "?") {
 					keySubst[cl] = k
-					if len(cl.Args) == 0 && fd.Recv != nil && len(fd.Recv.List) == 1 && len(fd.Recv.List[0].Names) == 1 {
-						if se, isSel := ast.Unparen(cl.Fun).(*ast.SelectorExpr); isSel && rawKey(se.X) == fd.Recv.List[0].Names[0].Name {
-							astSubst[cl] = rs.Results[0]
+					// the expression itself, with the receiver and the parameters replaced by the
+					// receiver expression and the arguments of this call (a typed clone), so that
+					// branch conditions can be decomposed through the helper
+					envAST := map[types.Object]ast.Expr{}
+					if fd.Recv != nil && len(fd.Recv.List) == 1 && len(fd.Recv.List[0].Names) == 1 {
+						if se, isSel := ast.Unparen(cl.Fun).(*ast.SelectorExpr); isSel {
+							envAST[calleeInfo.Defs[fd.Recv.List[0].Names[0]]] = se.X
+						}
+					}
+					j := 0
+					for _, fl := range fd.Type.Params.List {
+						for _, nm := range fl.Names {
+							if j < len(cl.Args) {
+								envAST[calleeInfo.Defs[nm]] = cl.Args[j]
+							}
+							j++
+						}
+					}
+					if calleeInfo == info {
+						if c := cloneWithSubst(info, rs.Results[0], envAST); c != nil {
+							astSubst[cl] = c
 						}
 					}
 				}
@@ -495,4 +523,73 @@ func stripIndex(k string) string {
 		k = k[:cut]
 	}
 	return k
+}
+
+// cloneWithSubst deep-copies an expression, replacing identifiers that denote the given objects by
+// the given expressions (which are shared, not copied). The clone's nodes get the type, selection
+// and use entries of the nodes they were copied from, so that typed helpers (fieldSel, TypeOf)
+// work on them. Returns nil for expression forms it does not copy.
+func cloneWithSubst(info *types.Info, e ast.Expr, env map[types.Object]ast.Expr) ast.Expr {
+	var rec func(e ast.Expr) ast.Expr
+	ok := true
+	note := func(orig, c ast.Expr) ast.Expr {
+		if tv, has := info.Types[orig]; has {
+			info.Types[c] = tv
+		}
+		return c
+	}
+	rec = func(e ast.Expr) ast.Expr {
+		if e == nil || !ok {
+			return nil
+		}
+		switch x := e.(type) {
+		case *ast.Ident:
+			if o := info.Uses[x]; o != nil {
+				if r, has := env[o]; has {
+					return r
+				}
+			}
+			return x
+		case *ast.BasicLit:
+			return x
+		case *ast.ParenExpr:
+			return note(x, &ast.ParenExpr{Lparen: x.Lparen, X: rec(x.X), Rparen: x.Rparen})
+		case *ast.SelectorExpr:
+			c := &ast.SelectorExpr{X: rec(x.X), Sel: x.Sel}
+			if sel, has := info.Selections[x]; has {
+				info.Selections[c] = sel
+			}
+			return note(x, c)
+		case *ast.StarExpr:
+			return note(x, &ast.StarExpr{Star: x.Star, X: rec(x.X)})
+		case *ast.UnaryExpr:
+			return note(x, &ast.UnaryExpr{OpPos: x.OpPos, Op: x.Op, X: rec(x.X)})
+		case *ast.BinaryExpr:
+			return note(x, &ast.BinaryExpr{X: rec(x.X), OpPos: x.OpPos, Op: x.Op, Y: rec(x.Y)})
+		case *ast.IndexExpr:
+			return note(x, &ast.IndexExpr{X: rec(x.X), Lbrack: x.Lbrack, Index: rec(x.Index), Rbrack: x.Rbrack})
+		case *ast.SliceExpr:
+			return note(x, &ast.SliceExpr{X: rec(x.X), Lbrack: x.Lbrack, Low: rec(x.Low), High: rec(x.High), Max: rec(x.Max), Slice3: x.Slice3, Rbrack: x.Rbrack})
+		case *ast.CallExpr:
+			c := &ast.CallExpr{Fun: rec(x.Fun), Lparen: x.Lparen, Ellipsis: x.Ellipsis, Rparen: x.Rparen}
+			for _, a := range x.Args {
+				c.Args = append(c.Args, rec(a))
+			}
+			if ks, has := keySubst[x]; has {
+				_ = ks // a nested helper call keeps its own substitution only if nothing in it was renamed
+			}
+			return note(x, c)
+		case *ast.TypeAssertExpr:
+			return note(x, &ast.TypeAssertExpr{X: rec(x.X), Lparen: x.Lparen, Type: x.Type, Rparen: x.Rparen})
+		case *ast.ArrayType, *ast.MapType, *ast.FuncType, *ast.InterfaceType, *ast.StructType, *ast.ChanType, *ast.IndexListExpr:
+			return x
+		}
+		ok = false
+		return nil
+	}
+	c := rec(e)
+	if !ok {
+		return nil
+	}
+	return c
 }
